@@ -457,8 +457,18 @@ class Gen:
             out.append("def _t_%s():" % gid)
             out.extend("    " + ln for b in body for ln in b.split("\n"))
             out.append("    return %s" % ret)
-            out.append("%s = if_then_else(%s, _t_%s, lambda: %s)" % (res, cond, gid, alt))
-            tags.append("lazy_ite")
+            if rnd.random() < 0.5:
+                out.append("%s = if_then_else(%s, _t_%s, lambda: %s)" % (res, cond, gid, alt))
+                tags.append("lazy_ite")
+            else:
+                # the body is the callable *else* branch: it runs live when the condition is false
+                out.append("%s = if_then_else(~%s, lambda: %s, _t_%s)" % (res, cond, alt, gid))
+                out.append("%s = %s + 0" % (res, res))
+                tags.append("lazy_ite_else")
+                if not self._try(sh, "%s = if_then_else(%s, %s, %s)" % (res, cond, ret, alt)):
+                    return None
+                pools[ty].append(res)
+                return out
         else:
             out.append("@guarded(%s)" % cond)
             out.append("def _g_%s():" % gid)
